@@ -56,6 +56,12 @@ func c04Case(w *rt.W, s uint64, cfg int, containers bool) {
 	fail := func(key, path, got, want string) {
 		w.Fail(key, "roundtrip", rt.Args("size", dec, "switches", cfg, "path", path), got, want, path+": marshalled form does not unmarshal to the same size / is not of the selected kind")
 	}
+	// a refused parse right before the round trips (whatever a refused input leaves behind must not
+	// leak into the next, valid one)
+	poison := []string{"12 kiB", "77XB", "99999999999999999999999", "16EiB", `{"value":31,"unit":"kib"}`, `"45 Kb"`, "-8", "3.5kB", "", `{"value":5`}[s%10]
+	if _, perr := size.DefaultParser(poison, size.DefaultRule); perr == nil {
+		fail("refused-input-accepted", "DefaultParser("+poison+")", "accepted", "an error")
+	}
 	// text
 	mt, err := sz.MarshalText()
 	w.Eval(1)
@@ -143,6 +149,12 @@ func c04Case(w *rt.W, s uint64, cfg int, containers bool) {
 		w.Eval(1)
 		if err != nil || g != sz {
 			fail("rendering-roundtrip", p.name+" -> DefaultParser ("+p.text+")", fmt.Sprint(uint64(g), " err=", err), dec)
+		}
+		var ur size.Size
+		err = ur.UnmarshalText([]byte(p.text))
+		w.Eval(1)
+		if err != nil || ur != sz {
+			fail("rendering-roundtrip-unmarshaltext", p.name+" -> UnmarshalText ("+p.text+")", fmt.Sprint(uint64(ur), " err=", err), dec)
 		}
 	}
 	if g, err := size.DefaultParser(sz.BytesJSONNumber().String(), size.DefaultRule); err != nil || g != sz {
